@@ -97,6 +97,11 @@ func TestWorker(t *testing.T) {
 			}
 			c, w, s := mk(i)
 			runOne(t, c, w, s, out, i)
+			if out.ShouldRecycle() {
+				out.Count("recycled_workers", 1)
+				out.Finish("restart", i+1)
+				return
+			}
 		}
 		out.Finish("done", -1)
 	}
